@@ -292,7 +292,10 @@ def child_load(args):
     import phonopy
 
     os.chdir(path)
-    kw = dict(force_sets_filename="FORCE_SETS", calculator=spec["calc"], is_compact_fc=False, symmetrize_fc=False, log_level=0)
+    kw = dict(force_sets_filename="FORCE_SETS", is_compact_fc=False, symmetrize_fc=False, log_level=0)
+    # the calculator is recorded in phonopy_disp.yaml: the restarted reader may name it again or rely on the file
+    if spec["fault_seed"] % 2 == 0:
+        kw["calculator"] = spec["calc"]
     if os.path.exists("BORN"):
         kw["born_filename"] = "BORN"
     else:
@@ -443,6 +446,13 @@ def execute(spec):
 
                 ideal_A = PhonopyAtoms(symbols=sup["symbols"], cell=sup["lattice"] * L, scaled_positions=sup["positions"])
                 outputs = []
+                # residual net force of a real calculation: a constant vector on every atom of every output (60 % of the runs)
+                drng = core.rng_of(spec["fault_seed"], "drift")
+                drift = None
+                if drng.random() < 0.6 and calc in peers.SUBTRACTS_DRIFT:
+                    fmag = float(np.max(np.abs(p1["fc_model"]))) * 0.01
+                    drift = np.array([drng.uniform(-1, 1) for _ in range(3)]) * 0.2 * fmag
+                    faults["output_with_net_force(drift)"] = 1
                 any_reordered = False
                 pos_err_rel = 0.0
                 disp_amp = None
@@ -465,7 +475,7 @@ def execute(spec):
                             disp_amp = amp if disp_amp is None else min(disp_amp, amp)
                             steps["peer_jobs"] += 1
                             F, perm = peers.harmonic_forces_for_file(rc, ideal_A, p1["fc_model"], L)
-                            peers.write_force_output(calc, "output-%03d" % (i + 1), rc, F, energy=-10.0 - i)
+                            peers.write_force_output(calc, "output-%03d" % (i + 1), rc, F, energy=-10.0 - i, drift=drift)
                             outputs.append("output-%03d" % (i + 1))
                             continue
                         fn = displaced_file_for(calc, p1["new_files"], i + 1)
@@ -501,7 +511,7 @@ def execute(spec):
                         if calc in peers.PEER_CALCULATORS:
                             F, perm = peers.harmonic_forces_for_file(rc, ideal_A, p1["fc_model"], L)
                             out_name = {"turbomole": "job-%03d" % (i + 1)}.get(calc, "output-%03d" % (i + 1))
-                            peers.write_force_output(calc, out_name, rc, F, energy=-10.0 - i)
+                            peers.write_force_output(calc, out_name, rc, F, energy=-10.0 - i, drift=drift)
                             outputs.append(out_name)
                     if any_reordered:
                         probes["atoms_regrouped_by_species_in_written_files"] = 1
@@ -570,7 +580,7 @@ def execute(spec):
                                     rcj.scaled_positions = ideal_in_file_order + 3.0 * dpos
                                     Fj, _ = peers.harmonic_forces_for_file(rcj, ideal_A, p1["fc_model"], L)
                                     stale_name = {"turbomole": "stale-job"}.get(calc, "stale-output")
-                                    peers.write_force_output(calc, stale_name, rcj, Fj, energy=-99.0)
+                                    peers.write_force_output(calc, stale_name, rcj, Fj, energy=-99.0, drift=drift)
                                     files[j] = stale_name
                                     fired.append(k)
                         for k in fired:
